@@ -326,6 +326,7 @@ def run(ctx):
             r6.fail('%s/arith' % b.nid, mirq.site(b, bad[0]), '%d unsigned/checked subtraction(s) on argument-derived values without a dominating guard on the same operands (first at %s): underflow panics the interpreter' % (len(bad), mirq.site(b, bad[0])),
                     {'sites': [mirq.site(b, i) for i in bad]})
     r6.need(30)
+    capacity_requests(ctx)
 
     # ---------------- R01.7 drop-glue recursion
     r7 = ctx.rule('R01.7', 'list-shaped owning links implement an iterative Drop')
@@ -377,3 +378,130 @@ def run(ctx):
     from . import c14
     r8 = ctx.rule('R01.8', 'small-form integer arithmetic that can overflow is excluded by an earlier arm (shared with R14.2)')
     c14.small_form_arith(ctx, r8)
+
+
+MEMORY_BOUNDED = re.compile(r'(std::vec::Vec|alloc::vec::Vec|core::slice::<impl \[T\]>|std::string::String|core::str::<impl str>|std::collections::\w+::\w+|regex_automata::\S*Captures|util::try_heap::TryHeap|util::fenced_string::FencedString)::(len|group_len|count|bytes)$')
+PROGRAM_NUMBER = re.compile(r'(ToPrimitive::to_(usize|u64|u32|i64)|builtin::sequence::XSequence::len|XSequence<W, R, T>::len)$')
+CAPACITY_FIELDS_OK = {('XStack', 'length'): 'the number of nodes the stack actually holds (maintained by push/pop): bounded by memory already accounted'}
+
+
+def capacity_requests(ctx):
+    """R01.11: `with_capacity(n)` asks the allocator for n slots at once; when it cannot have them the process aborts (no unwinding,
+    no error value).  In the builtins every such n is (a) the length of a collection that is already in memory (or the minimum of
+    something and such a length), or (b) announced first to the size limit: a can_allocate*(..) whose argument is computed from the
+    same number dominates the request -- in the body, or at every call site when n comes in as a parameter / through self."""
+    mir = ctx.mir
+    r11 = ctx.rule('R01.11', 'capacity requests sized by a number from the program are announced to the size limit first')
+    from .lib.facts import callee_name
+    idx = mir.callers_index()
+
+    PASS = ('::min', '::saturating_sub', '::deref', '::as_ref', '::unwrap', '::branch', '::clone', '::unwrap_or', '::from', '::into', '::unwrap_or_else', '::max', '::checked_mul', '::saturating_mul')
+
+    def classify(b, local):
+        """(kinds, sources).  kinds: subset of {'memory', 'program', 'param', 'field:<T.f>', 'call:<f>'}; sources: the *numbers* the
+        value is computed from -- ('num', call block) for a conversion of a program integer, ('len', root local of the receiver)
+        for the logical length of a sequence, ('param', k), ('field', T.f).  The walk stops at the calls and field reads that say
+        what kind of number it is (the length of a vector is bounded by memory whatever vector it is)."""
+        kinds, sources, seen, todo = set(), set(), set(), [local]
+        defs = b.defs()
+        while todo:
+            l = todo.pop()
+            if l in seen:
+                continue
+            seen.add(l)
+            ds = defs.get(l, [])
+            if not ds and 1 <= l <= b.d['argc']:
+                kinds.add('param')
+                sources.add(('param', l))
+                continue
+            for kind, dbb, idx_, x in ds:
+                if kind == 'call':
+                    nm = strip_generics(callee_name(x) or x.get('decl') or '')
+                    if MEMORY_BOUNDED.search(nm):
+                        kinds.add('memory')
+                    elif PROGRAM_NUMBER.search(nm):
+                        kinds.add('program')
+                        q = op_place(x['args'][0]) if x['args'] else None
+                        if nm.endswith('::len') and q is not None:
+                            sources.add(('len', guards.root_local(b, q['l'])))
+                        else:
+                            sources.add(('num', dbb))
+                    elif nm.endswith(PASS):
+                        for a in x['args']:
+                            q = op_place(a)
+                            if q is not None:
+                                todo.append(q['l'])
+                    else:
+                        kinds.add('call:' + nm.split('::')[-1])
+                        sources.add(('call', dbb))
+                    continue
+                rv = x['rv']
+                places = [op_place(rv[k]) for k in ('op', 'a', 'b') if isinstance(rv.get(k), dict)] + ([rv['place']] if 'place' in rv else []) + [op_place(o) for o in rv.get('ops', [])]
+                for pl in places:
+                    if pl is None:
+                        continue
+                    names = [e['n'] for e in pl['p'] if isinstance(e, dict) and 'n' in e]
+                    ty = (b.local_ty(pl['l']) or '').replace('&mut ', '').lstrip('&').split('<')[0].split('::')[-1]
+                    if names and ty not in ('Option', 'Result', 'ControlFlow'):
+                        kinds.add('field:%s.%s' % (ty, names[-1]))
+                        sources.add(('field', '%s.%s' % (ty, names[-1])))
+                    else:
+                        todo.append(pl['l'])
+        return kinds, sources
+
+    def guarded_here(b, bb, sources):
+        for d in b.dominators().get(bb, ()):
+            t = b.term(d)
+            if t['k'] == 'call' and re.search(r'::can_allocate(_by)?$|::can_afford$', strip_generics(callee_name(t) or '')) and len(t['args']) > 1:
+                p = op_place(t['args'][1])
+                if p is not None and classify(b, p['l'])[1] & sources:
+                    return True
+        return False
+
+    def guarded_at_callers(b, sources):
+        if b.kind == 'closure':
+            return False
+        sites = idx.get(b.nid, [])
+        if not sites:
+            return False
+        for cb, cbb, t in sites:
+            here = set()
+            for src in sources:
+                if src[0] == 'param' and src[1] - 1 < len(t['args']):
+                    q = op_place(t['args'][src[1] - 1])
+                    if q is not None:
+                        here |= classify(cb, q['l'])[1]
+                elif src[0] == 'len' and 1 <= src[1] <= b.d['argc'] and src[1] - 1 < len(t['args']):
+                    q = op_place(t['args'][src[1] - 1])
+                    if q is not None:
+                        here.add(('len', guards.root_local(cb, q['l'])))
+            if not here or not guarded_here(cb, cbb, here):
+                return False
+        return True
+    for b in mir.bodies:
+        if not b.file.startswith('src/builtin/') or '::tests::' in b.nid:
+            continue
+        for bb, t in b.calls():
+            nm = strip_generics(callee_name(t) or '')
+            if not nm.endswith('::with_capacity') or not t['args'] or b.is_cleanup(bb):
+                continue
+            p = op_place(t['args'][0])
+            if p is None:
+                r11.inst({'body': b.id, 'site': mirq.site(b, bb), 'capacity': 'constant'}, kind=(b.id, bb))
+                continue
+            kinds, sources = classify(b, p['l'])
+            risky = {k for k in kinds if k == 'program' or k == 'param' or k.startswith('call:') or (k.startswith('field:') and (k[6:].split('.')[0], k.split('.')[-1]) not in CAPACITY_FIELDS_OK)}
+            # min(n, length in memory) is bounded whatever n is
+            clamp = 'memory' in kinds and any(strip_generics(callee_name(ct) or '').endswith('::min') and not ct['dest']['p'] and ct['dest']['l'] in mirq.backslice(b, [p['l']]) for cbb, ct in b.calls())
+            if not risky or clamp:
+                r11.inst({'body': b.id, 'site': mirq.site(b, bb), 'capacity': 'bounded by what is in memory: ' + ', '.join(sorted(kinds))}, kind=(b.id, bb))
+                for k in kinds:
+                    if k.startswith('field:') and (k[6:].split('.')[0], k.split('.')[-1]) in CAPACITY_FIELDS_OK:
+                        r11.exempted(k, CAPACITY_FIELDS_OK[(k[6:].split('.')[0], k.split('.')[-1])])
+                continue
+            ok = guarded_here(b, bb, sources) or guarded_at_callers(b, sources)
+            fn = strip_generics(mir.enclosing_fn(b)) if b.kind == 'closure' else b.nid
+            r11.inst({'body': b.id, 'site': mirq.site(b, bb), 'capacity_from': sorted(kinds), 'announced_to_the_size_limit': ok}, ok=ok, kind=(b.id, bb))
+            if not ok:
+                r11.fail('%s/with_capacity/%s' % (fn, '-'.join(sorted(k.replace('field:', '') for k in risky))), mirq.site(b, bb), 'with_capacity is sized by a number the program supplies (%s) and no can_allocate computed from that number dominates it: a huge number aborts the process (memory allocation of N bytes failed) instead of ending in an error value or a limit violation' % ', '.join(sorted(risky)))
+    r11.need(5)
